@@ -77,20 +77,6 @@ Fixpoint bools_eqb (a b : list bool) : bool :=
   | _, _ => false
   end.
 
-(* spec decisions end at the first refusal; the observation must agree on that prefix *)
-Fixpoint prefix_agrees (spec obs : list bool) : bool :=
-  match spec, obs with
-  | [], _ => true
-  | s :: sr, o :: or => Bool.eqb s o && prefix_agrees sr or
-  | _ :: _, [] => false
-  end.
-
-(* timestamps and sizes for which the theorems' premises hold *)
-Definition in_range (window : Z) (evs : list (Z * Z)) : bool :=
-  (0 <? window) && (window <? 2 ^ 62) &&
-  forallb (fun e => (0 <=? fst e) && (fst e <? 2 ^ 62) && (0 <=? snd e) && (snd e <? 2 ^ 40)) evs &&
-  sorted_from 0 evs.
-
 Fixpoint lim_states_ok (run : list (option limiter * bool)) (op ob : list (option csum)) : bool :=
   match run, op, ob with
   | [], [], [] => true
